@@ -450,16 +450,29 @@ func (e *Exec) execRange(s *ast.RangeStmt, label string, st *State, ctx *Ctx, k 
 	}
 	bindLoopVar(s.Key, keyT, body)
 	bindLoopVar(s.Value, valT, body)
+	nextVisited, nextDone, nextRest := body.ghosts["visited'"], body.ghosts["done'"], body.ghosts["rest'"]
 	endIter := func(st2 *State) {
-		// advance the ghosts, then the invariants must hold again
+		// advance the ghosts, then the invariants must hold again (the captured values are used: a labelled
+		// `continue` may arrive here from inside an inner loop whose own ghosts are still in the state)
 		nx := st2.clone()
+		for n, v := range saved {
+			if strings.HasSuffix(n, "@loop") || strings.HasSuffix(n, "@iter") {
+				continue
+			}
+			_ = v
+		}
 		if hasVisited {
-			e.setGhost(nx, li, "visited", st2.ghosts["visited'"])
+			e.setGhost(nx, li, "visited", nextVisited)
 		}
 		if seq != "" {
-			e.setGhost(nx, li, "done", st2.ghosts["done'"])
-			e.setGhost(nx, li, "rest", st2.ghosts["rest'"])
+			e.setGhost(nx, li, "done", nextDone)
+			e.setGhost(nx, li, "rest", nextRest)
 			e.setGhost(nx, li, "idx", "(+ "+idx+" 1)")
+		}
+		for n, v := range head.ghosts {
+			if strings.HasSuffix(n, "@loop") || strings.HasSuffix(n, "@iter") {
+				nx.ghosts[n] = v
+			}
 		}
 		if kind == rkInt {
 			e.setGhost(nx, li, "idx", "(+ "+idx+" 1)")
